@@ -22,6 +22,11 @@ type Sandbox struct {
 	out   *bufio.Reader
 	Calls int
 	Died  int
+	used  bool // the current child has served a call before
+	// what the child said while working on the last call, before its answer (or its death): the last
+	// progress marker ("SBXQ <n>": about to start item n) and the partial results ("SBXP <text>")
+	Last    string
+	Partial []string
 }
 
 var sandboxHandlers = map[string]func(args []string) string{}
@@ -63,16 +68,30 @@ func (s *Sandbox) kill() {
 	s.cmd = nil
 }
 
-// Call sends one request line "<handler> <args…>" and waits for the one-line answer.
+// Call sends one request line "<handler> <args…>" and waits for the one-line answer. When a child that
+// has served earlier calls dies or stalls, the death may be the late effect of an earlier input (a
+// goroutine it left behind), so the call is repeated once on a fresh child and that answer counts: a
+// crash or timeout is only ever attributed to an input that causes it on its own.
 func (s *Sandbox) Call(line string, timeout time.Duration) string {
 	s.mu.Lock()
 	defer s.mu.Unlock()
 	s.Calls++
+	used := s.used && s.cmd != nil
+	ans := s.callOnce(line, timeout)
+	if used && (strings.HasPrefix(ans, "crash:") || ans == "timeout") {
+		ans = s.callOnce(line, timeout)
+	}
+	return ans
+}
+
+func (s *Sandbox) callOnce(line string, timeout time.Duration) string {
 	if s.cmd == nil {
+		s.used = false
 		if err := s.start(); err != nil {
 			return "crash:restart-failed"
 		}
 	}
+	s.used = true
 	if _, err := io.WriteString(s.in, line+"\n"); err != nil {
 		s.kill()
 		s.Died++
@@ -84,6 +103,13 @@ func (s *Sandbox) Call(line string, timeout time.Duration) string {
 	}
 	ch := make(chan res, 1)
 	out := s.out
+	var pm sync.Mutex
+	last, partial := new(string), new([]string)
+	defer func() {
+		pm.Lock()
+		s.Last, s.Partial = *last, append([]string{}, *partial...)
+		pm.Unlock()
+	}()
 	go func() {
 		for {
 			l, err := out.ReadString('\n')
@@ -94,6 +120,15 @@ func (s *Sandbox) Call(line string, timeout time.Duration) string {
 			if strings.HasPrefix(l, "SBX ") {
 				ch <- res{strings.TrimRight(l[4:], "\n"), nil}
 				return
+			}
+			if strings.HasPrefix(l, "SBXQ ") {
+				pm.Lock()
+				*last = strings.TrimSpace(l[5:])
+				pm.Unlock()
+			} else if strings.HasPrefix(l, "SBXP ") {
+				pm.Lock()
+				*partial = append(*partial, strings.TrimSpace(l[5:]))
+				pm.Unlock()
 			}
 		}
 	}()
